@@ -35,6 +35,8 @@ pub struct ScriptIface {
     pub name: &'static str,
     pub desc: &'static str,
     pub seen: Arc<Mutex<Vec<u8>>>,
+    /// (interface name, description, request as seen by the implementation)
+    pub calls: Arc<Mutex<Vec<Sx>>>,
 }
 
 pub fn leak(s: &str) -> &'static str {
@@ -57,6 +59,20 @@ impl varlink::Interface for ScriptIface {
     fn call(&self, call: &mut Call) -> varlink::Result<()> {
         let req = call.request.unwrap();
         let method: String = req.method.to_string();
+        self.calls.lock().unwrap().push(sx::list(vec![
+            sx::xs(self.name),
+            sx::xs(self.desc),
+            sx::tagged(
+                "req",
+                vec![
+                    sx::opt_bool(req.more),
+                    sx::opt_bool(req.oneway),
+                    sx::opt_bool(req.upgrade),
+                    sx::xs(&req.method),
+                    sx::opt_json(req.parameters.as_ref()),
+                ],
+            ),
+        ]));
         let last = method.rsplit('.').next().unwrap_or("");
         if last.starts_with("Nx") {
             return call.reply_method_not_found(method);
@@ -126,6 +142,7 @@ impl vtest::VarlinkInterface for VTestImpl {
 pub struct Built {
     pub service: VarlinkService,
     pub seen: Arc<Mutex<Vec<u8>>>,
+    pub calls: Arc<Mutex<Vec<Sx>>>,
 }
 
 pub fn build_service(svc: &Sx) -> Built {
@@ -135,6 +152,7 @@ pub fn build_service(svc: &Sx) -> Built {
     let version = l[3].as_str().unwrap();
     let url = l[4].as_str().unwrap();
     let seen = Arc::new(Mutex::new(Vec::new()));
+    let calls = Arc::new(Mutex::new(Vec::new()));
     let mut ifaces: Vec<Box<dyn varlink::Interface + Send + Sync>> = Vec::new();
     for i in &l[5].as_list().unwrap()[1..] {
         let il = i.as_list().unwrap();
@@ -143,12 +161,13 @@ pub fn build_service(svc: &Sx) -> Built {
                 name: leak(&il[1].as_str().unwrap()),
                 desc: leak(&il[2].as_str().unwrap()),
                 seen: seen.clone(),
+                calls: calls.clone(),
             })),
             "gen" => ifaces.push(Box::new(vtest::new(Box::new(VTestImpl)))),
             other => panic!("iface kind {}", other),
         }
     }
-    Built { service: VarlinkService::new(vendor, product, version, url, ifaces), seen }
+    Built { service: VarlinkService::new(vendor, product, version, url, ifaces), seen, calls }
 }
 
 // ---------------------------------------------------------------------------
@@ -328,11 +347,25 @@ fn status_sx(r: &varlink::Result<(Vec<u8>, Option<String>)>) -> Sx {
 // ---------------------------------------------------------------------------
 // running one case
 
+/// reference run: the whole stream in one call on a fresh service from an in-memory slice
+fn reference(svc: &Sx, total: &[u8]) -> Sx {
+    let built = build_service(svc);
+    let mut out = Vec::new();
+    let mut rd: &[u8] = total;
+    let r = built.service.handle(&mut rd, &mut out, None);
+    let tail = match &r {
+        Ok((t, _)) => t.clone(),
+        Err(_) => Vec::new(),
+    };
+    sx::tagged("ref", vec![status_sx(&r), sx::tagged("out", split_replies(&out)), sx::bs(&tail), sx::bs(rd)])
+}
+
 pub fn run_case(input: &Sx) -> Sx {
     let l = input.as_list().expect("case");
     let mode = l[1].as_atom().unwrap().to_string();
     let built = build_service(&l[2]);
     let chunks: Vec<Vec<u8>> = l[3].as_list().unwrap()[1..].iter().map(|c| c.as_bytes().unwrap()).collect();
+    let total: Vec<u8> = chunks.concat();
     let mut out: Vec<u8> = Vec::new();
     match mode.as_str() {
         "whole" => {
@@ -344,9 +377,18 @@ pub fn run_case(input: &Sx) -> Sx {
             };
             let rest = rd.remaining();
             let seen = built.seen.lock().unwrap().clone();
+            let calls = built.calls.lock().unwrap().clone();
             sx::tagged(
                 "obs",
-                vec![status_sx(&r), sx::tagged("out", split_replies(&out)), sx::bs(&tail), sx::bs(&rest), sx::bs(&seen)],
+                vec![
+                    status_sx(&r),
+                    sx::tagged("out", split_replies(&out)),
+                    sx::bs(&tail),
+                    sx::bs(&rest),
+                    sx::bs(&seen),
+                    sx::tagged("calls", calls),
+                    reference(&l[2], &total),
+                ],
             )
         }
         "feed" => {
@@ -374,9 +416,18 @@ pub fn run_case(input: &Sx) -> Sx {
                 }
             }
             let seen = built.seen.lock().unwrap().clone();
+            let calls = built.calls.lock().unwrap().clone();
             sx::tagged(
                 "obs",
-                vec![status, sx::tagged("out", split_replies(&out)), sx::bs(&tail), sx::bs(&[]), sx::bs(&seen)],
+                vec![
+                    status,
+                    sx::tagged("out", split_replies(&out)),
+                    sx::bs(&tail),
+                    sx::bs(&[]),
+                    sx::bs(&seen),
+                    sx::tagged("calls", calls),
+                    reference(&l[2], &total),
+                ],
             )
         }
         other => panic!("mode {}", other),
@@ -742,7 +793,7 @@ impl Suite for WireSuite {
             let bad_at = if with_bad && len > 0 { rng.below(len) } else { usize::MAX };
             for i in 0..len {
                 tok += 1;
-                let t = format!("t{}", tok);
+                let t = format!("t{}z", tok);
                 let r = if i == bad_at { gen_malformed(&mut rng, cfg, &t) } else { gen_request(&mut rng, cfg, &t) };
                 tags.push(format!("req:{}", r.kind.split(':').next().unwrap_or("").split('+').next().unwrap_or("")));
                 for part in r.kind.split('+').skip(1) {
@@ -816,7 +867,7 @@ impl Suite for WireSuite {
             let mut reqs = Vec::new();
             for _ in 0..len {
                 tok += 1;
-                reqs.push(gen_request(&mut rng, cfg, &format!("t{}", tok)));
+                reqs.push(gen_request(&mut rng, cfg, &format!("t{}z", tok)));
             }
             let total = stream_of(&reqs);
             for c in 0..=total.len() {
